@@ -46,6 +46,13 @@ Proof.
     + apply IH in E; [lia | lia | assumption].
 Qed.
 
+Lemma laguer_exhausted_lemma a x l :
+  laguer RA a x = Ok l -> lwhy l = Exhausted -> liters l = MAXIT - 1.
+Proof.
+  unfold laguer. intros E Hw. apply bind_ok in E as (m & _ & E).
+  apply laguer_loop_exhausted in E; [lia | lia | exact Hw].
+Qed.
+
 (* ---------- poly_solve: exactly n values ---------- *)
 Lemma quadratic_solve_gen_length fixed a b c rs :
   quadratic_solve_gen RA fixed a b c = Ok rs -> length rs = 2.
